@@ -246,10 +246,14 @@ C16_NonTrivial(c, r, v) == Cardinality(AllYs(r)) >= 2 /\ \E y \in AllYs(r) : Car
 (* (bands are recovered from Y).                                           *)
 C11_Applies(c, r, v) == /\ v.ok /\ EdgesMapped(c, r) /\ c.p2 = "lp" /\ c.ls > 0
                         /\ Len(r.oe) = Len(c.edges) /\ IsAcyclic(DrawnArcs(r))
+\* (ny, ys: each node's Y and each component's set of Ys are computed once per record - deep chains have > 100 bands)
 C11_Fail(c, r, v) ==
-    LET h == HeightToSink(1..c.n, DrawnArcs(r)) IN
-    If(\A i \in 1..c.n : BandFromBottom(c, r, v, i) = h[i] - 1, "BandIsHeightToSink")
-    \cup If(\A m \in v.roots : Cardinality(YsOf(c, r, v, m)) = Max({h[i] : i \in CompNodes(c, v, m)}), "BandCount")
+    LET h == HeightToSink(1..c.n, DrawnArcs(r))
+        ny == [i \in 1..c.n |-> Nd(r, v, i).y]
+        ys == [m \in v.roots |-> {ny[i] : i \in CompNodes(c, v, m)}]
+    IN
+    If(\A i \in 1..c.n : Cardinality({y \in ys[v.comp[i]] : y > ny[i]}) = h[i] - 1, "BandIsHeightToSink")
+    \cup If(\A m \in v.roots : Cardinality(ys[m]) = Max({h[i] : i \in CompNodes(c, v, m)}), "BandCount")
 C11_NonTrivial(c, r, v) == \E m \in v.roots : Cardinality(YsOf(c, r, v, m)) >= 2 /\ Cardinality(CompNodes(c, v, m)) >= 3
 
 -----------------------------------------------------------------------------
